@@ -33,6 +33,7 @@ def run(repo: Repo, chk: Check):
     chk.guarded(r06e, repo, chk)
     chk.guarded(r06g, repo, chk)
     chk.guarded(r06h, repo, chk)
+    chk.guarded(r06k, repo, chk)
 
 
 def _addr(site):
@@ -372,6 +373,33 @@ def r06g(repo, chk, R="R06.g"):
         for s in roles[("caller-result", conv)]:
             chk.judge(R, f"generate_code:{call_fn.qual}:result ({'push/pop' if conv else 'fixed slots'}) is read after the call",
                       s.section == "end", f"the result is read in section {s.section!r}, expected the 'end' section (after the callee's code / the jal)", None, s.where())
+    # the whole call sequence belongs to the call's own fragment: the gather pass emits the fragments of all argument nodes first,
+    # so every argument is evaluated before the first one is stored (slots and stack are shared by nested calls)
+    node_param = call_fn.args.args[1].arg if len(call_fn.args.args) > 1 else None
+
+    def fragment_owner(recv, at):
+        """the node whose fragment *recv* is:  <x>._ndata  or a local bound to it -> norm(<x>)"""
+        if isinstance(recv, ast.Attribute) and recv.attr == "_ndata":
+            return norm(recv.value)
+        if isinstance(recv, ast.Name):
+            ids = live_ids(cfg, at)
+            ds = rd.at(ids[0], recv.id) if ids else []
+            owners = {fragment_owner(d.value, cfg.nodes[d.node].ast) if d.kind == "assign" and not d.index and d.value is not None and not isinstance(d.value, ast.Name) else None for d in ds}
+            if len(owners) == 1:
+                return owners.pop()
+        return None
+    seq = [(s, "argument store") for conv in (False, True) for s in roles[("caller-arg", conv)]] + [(jal[0], "jal")]
+    for s, what in seq:
+        sk = s.sinks()
+        if not sk:
+            raise AnalysisError(f"handle_call: where the {what} {norm(s.call)[:50]} is added was not recognised")
+        for recv, meth, c in sk:
+            owner = fragment_owner(recv, c)
+            if owner is None:
+                raise AnalysisError(f"handle_call: the fragment {norm(recv)} that receives the {what} was not resolved")
+            chk.judge(R, f"generate_code:{call_fn.qual}:{what} goes to the call's own fragment", owner == node_param and meth in ("add", "_add"),
+                      f"the {what} is added with {norm(recv)}.{meth}(...), the fragment of {owner!r}: it is emitted between the evaluation of the arguments instead of after all of "
+                      f"them, so a call nested in a later argument overwrites the argument slots (or pushes in between) that were already filled", {"receiver": norm(recv), "method": meth}, s.where())
     ret_fn = g.func(f"{GEN_CLASS}.{hs['Return']}")
     rsites = sorted([s for s in collect_sites(repo, ["generate_code"]) if s.fn is ret_fn and s.opcodes is not TOP], key=lambda s: s.call.lineno)
     jumps = [s for s in rsites if set(s.opcodes) == {"j"}]
@@ -379,6 +407,71 @@ def r06g(repo, chk, R="R06.g"):
     ok = bool(jumps) and bool(stores) and all(st.call.lineno < j.call.lineno and st.section == j.section for st in stores for j in jumps)
     chk.judge(R, f"generate_code:{ret_fn.qual}:result is stored before the jump to the end label", ok,
               "a return jumps to the function's end label before (or in another section than) storing its value", None, f"{g.path}:{ret_fn.lineno} in {ret_fn.qual}")
+
+
+def r06k(repo, chk, R="R06.f"):
+    """The fixed-slot branch restores ra behind 'the' end label: the scan must keep the LAST label that ends in '<name>end:'
+    (an inlined callee whose name ends in the caller's name leaves its own end label inside the caller's code)."""
+    cp = repo.mod("compile_pass")
+    qual = "FunctionData.add_ra_instructions"
+    fn = cp.func(qual)
+    cfg, rd = fn_ctx(fn)
+    where = f"{cp.path}:{fn.lineno} in {qual}"
+    inserts = [c for c in ast.walk(fn) if isinstance(c, ast.Call) and isinstance(c.func, ast.Attribute) and c.func.attr == "insert" and len(c.args) == 2
+               and any(isinstance(a, ast.Call) and a.args and isinstance(a.args[0], ast.Constant) and a.args[0].value == "pop" for a in ast.walk(c.args[1]))]
+    pos_names = set()
+    for c in inserts:
+        ids = live_ids(cfg, c)
+        pol = None
+        for t, p in (guard_atoms(cfg, ids[0]) if ids else []):
+            if norm(t).endswith("use_push_pop_functions"):
+                pol = p
+        if pol is False:
+            pos_names |= {n.id for n in ast.walk(c.args[0]) if isinstance(n, ast.Name)}
+    if len(pos_names) != 1:
+        raise AnalysisError(f"add_ra_instructions: the variable holding the end label's position was not identified ({sorted(pos_names)})")
+    var = pos_names.pop()
+    verdicts = []
+    for d in rd.all_defs:
+        if d.name != var or d.kind == "param":
+            continue
+        v = d.value
+        if d.kind == "assign" and isinstance(v, ast.Constant) and v.value is None:
+            continue
+        st = cfg.nodes[d.node].ast if d.node >= 0 else None
+        if d.kind == "assign" and isinstance(v, ast.Call) and isinstance(v.func, ast.Name) and v.func.id in ("max", "min") and v.args and isinstance(v.args[0], (ast.GeneratorExp, ast.ListComp)):
+            verdicts.append(("last" if v.func.id == "max" else "first", norm(v)[:70], st))
+            continue
+        # assigned inside a scan over enumerate(self.code)
+        lp = st
+        while lp is not None and not isinstance(lp, ast.For):
+            lp = getattr(lp, "parent", None)
+        if d.kind != "assign" or lp is None or "self.code" not in norm(lp.iter):
+            raise AnalysisError(f"add_ra_instructions: definition of {var} not understood: {norm(st)[:80] if st is not None else d.kind}")
+        rev = "reversed" in norm(lp.iter) or norm(lp.iter).endswith("[::-1]")
+        # does the scan stop at this match?  (a break that the assignment reaches before the next element is taken)
+        stops = False
+        seen, stack = set(), [b for b, lab in cfg.succ[d.node] if not (isinstance(lab, tuple) and lab[0] == "exc")]
+        heads = {n.id for n in cfg.nodes if n.kind == "for" and n.stmt is lp}
+        while stack:
+            a = stack.pop()
+            if a in seen or a in heads:
+                continue
+            seen.add(a)
+            if cfg.nodes[a].kind == "break":
+                stops = True
+            stack.extend(b for b, lab in cfg.succ[a] if not (isinstance(lab, tuple) and lab[0] == "exc"))
+        keeps = "first" if stops else "last"
+        if rev:
+            keeps = "last" if stops else "first"
+        verdicts.append((keeps, norm(st)[:70], st))
+    if not verdicts:
+        raise AnalysisError(f"add_ra_instructions: no definition of {var} found")
+    for keeps, txt, st in verdicts:
+        chk.judge(R, f"compile_pass:{qual}:the end label is the last label ending in '<name>end:'", keeps == "last",
+                  f"{var} is set by '{txt}', which keeps the {keeps} matching label: with an inlined callee whose name ends in this function's name "
+                  f"(update / pre_update) that is the callee's end label inside the body, 'pop ra' lands in the middle of the function and a later jal loses the return address",
+                  {"keeps": keeps}, where)
 
 
 def r06h(repo, chk, R="R06.h"):
